@@ -110,14 +110,14 @@ T = {
  "C11-r2m2": ("C11", "get_line_column_range fast path computes the end column from the byte length", "a located text without line terminator that contains a multi-byte character, range end inspected", "C11 line/column ranges of every node (added before this seed was evaluated)"),
  "C18-r2m1": ("C18", "Schema::type_field returns __typename for scalar, enum and input object types too", "fragment with a scalar / enum / input type condition selecting __typename", ""),
  "C18-r2m2": ("C18", "validate_inline_fragment drops the fallback to the parent type for fragments without type condition", "`... { }` or `... @include(if: $c) { }` with an undefined variable or a missing sub-selection below it", ""),
- "C04-r2m1": ("C04", "Parser::err_at_token pushes the error directly, bypassing the accept_errors check", "a recursion-limit error followed later by a type position whose next token is not a type", ""),
+ "C04-r2m1": ("C04", "Parser::err_at_token pushes the error directly, bypassing the accept_errors check", "a recursion-limit error followed later by a type position whose next token is not a type", "none: the statement demands 'no error after the first limit error' for the token limit; after a recursion-limit error the unchanged tree already reports further (lexer) errors, so C04 counts such errors and does not judge them"),
  "C04-r2m2": ("C04", "field_set: a field set without outer braces no longer counts as a nesting level", "brace-less field set through parse_selection_set / parse_field_set with the recursion limit equal to depth - 1", ""),
  "C33-r2m1": ("C33", "__typename recognised by response key instead of field name", "`kind: __typename` (aliased)", ""),
  "C33-r2m2": ("C33", "nullability of a list field judged on its items", "non-null list of nullable items + a null ratio above 0", "C33 workload with `[Int]!`, `[T]!`, `[[Int]]!` fields (added before this seed was evaluated)"),
  "C23-r2m1": ("C23", "DirectiveArgumentCoordinate::from_str splits on `:)` and drops the rest", "`@d(a:)` followed by at least one more character (7 bytes)", ""),
  "C23-r2m2": ("C23", "FieldArgumentCoordinate::lookup_ref resolves the field directly and its wildcard arm swallows interfaces", "lookup of an argument of an interface field", ""),
  "C29-r2m1": ("C29", "is_variable_usage_allowed_at step 3.d compares list item types with == instead of is_assignable_to", "non-null list location, nullable list variable with a default, compatible but not identical item types", ""),
- "C29-r2m2": ("C29", "validate_implementation_field_types skips a field name already checked against an earlier interface", "two interfaces defining the same field with different types; the implementing field valid for the first, invalid for the later one", ""),
+ "C29-r2m2": ("C29", "validate_implementation_field_types skips a field name already checked against an earlier interface", "two interfaces defining the same field with different types; the implementing field valid for the first, invalid for the later one", "C29 part (iii-b): one implementer, two interfaces, every triple of type references of nesting <= 1"),
  "C30-r2m1": ("C30", "Name::with_location repacks the file id with a hard-coded TAG_ARC", "a static name followed by with_location", ""),
  "C30-r2m2": ("C30", "Hash for Node<T> hashes the header (location) too", "two equal nodes that differ only in location, hashed", ""),
  "C20-r2m1": ("C20", "validate_directives: unknown directives count as non-repeatable without a schema", "a directive the schema declares repeatable, applied twice on one node", ""),
@@ -132,6 +132,10 @@ T = {
  "C07-r2m2": ("C07", "lexer State::Comment ends only at LF", "`Int # c\\rx`: a comment after the construct ended by a lone CR, extra token on the next line", ""),
  "C10-r2m1": ("C10", "Name byte classes via a 128-entry table indexed with `byte & 0x7F`", "a non-ASCII character whose UTF-8 bytes alias onto name characters (U+00B0..B9, U+00F0..F9: `ñ`, `²`)", "C10 edge alphabet: `ñ`, `²` (added before this seed was evaluated)"),
  "C10-r2m2": ("C10", "FloatValue Deserialize::visit_string checks the Int grammar", "a deserializer that hands over an owned String (serde_json::from_value), value `3.5` or `3`", ""),
+ "C02-r2m1": ("C02", "document(): early return after 'Unexpected <EOF>' skips the final push_ignored()", "a non-empty input without any definition (only white space, comments, commas, lexer-error fragments)", ""),
+ "C02-r2m2": ("C02", "lexer ExponentIndicator error carries only the offending character; the cursor stays at the start of the number", "`1ex`: an exponent marker directly followed by a character that is neither digit nor sign", ""),
+ "C09-r2m1": ("C09", "\\uXXXX escape of control characters formatted in decimal (same slip as C08-r2m2, written independently)", "quoted string containing U+000B or U+000E..U+001F", "C09 alphabet: U+001F"),
+ "C09-r2m2": ("C09", "can_be_block_string: blank lines take part in the common indent (filter_map became map)", "three lines, every non-blank line indented, an empty interior line: ` a\\n\\n a`", ""),
  "C33-m2": ("C33", "collect_fields: a fragment spread's fields replace nothing but are not merged into an already collected key", "same composite response key twice, the later occurrence from a named fragment with an extra sub-field", ""),
 }
 
